@@ -210,6 +210,53 @@ def long_cases(ctx):
     return cases
 
 
+def run_late(case, acc, order):
+    """Short trains late in a long recording: sample numbers beyond 2**24 (float32 times, rate 1.5) or
+    beyond 2**32 (float64 times, rate 1024); the time values are exact in their dtype and time * rate is
+    exact in double precision, so the counts are those of the integer sample numbers."""
+    from phylib.stats.ccg import correlograms
+    kind = case['kind']
+    acc.state()
+    for n in range(2, case['max_len'] + 1):
+        for d in itertools.combinations_with_replacement(range(case['grid']), n):
+            if kind == 'float32':
+                rate, J = 1.5, 5600001
+                samples = [3 * (J + x) for x in d]
+                times = np.array([2 * (J + x) for x in d], dtype=np.float32)
+                unit = 3                 # samples per grid step
+            else:
+                rate, J = 1024.0, 2 ** 33 + 5
+                samples = [J + x for x in d]
+                times = np.array(samples, dtype=np.float64) / rate
+                unit = 1
+            assert [int(x) for x in (times.astype(np.float64) * rate)] == samples
+            for labels in itertools.product((2, 5), repeat=n):
+                labels_arr = np.array(labels, dtype=np.int64)
+                for (b, half) in ((1, 1), (2, 2)):
+                    binsamp = b * unit
+                    bin_size = binsamp / rate
+                    window = (2 * half + 1) * bin_size
+                    C = ref_onesided(samples, labels, [2, 5], binsamp, half)
+                    for sym in (False, True):
+                        exp = ref_symmetric(C) if sym else C
+                        try:
+                            with core.time_limit(5):
+                                got = correlograms(times, labels_arr, cluster_ids=[2, 5], sample_rate=rate,
+                                                   bin_size=bin_size, window_size=window, symmetrize=sym)
+                        except (Exception, core.CaseTimeout) as e:
+                            got = e
+                        acc.step(True, 'ccg:late:%s' % kind)
+                        if not (isinstance(got, np.ndarray) and arr_equal(got, exp, dtype=False)):
+                            sig = '%s/correlograms/late-in-recording/%s-times/%s' % (
+                                PROP, kind, type(got).__name__ if isinstance(got, BaseException) else 'value')
+                            acc.violation(sig, core.make_record(
+                                PROP, 'correlograms', sig, case=case,
+                                op={'samples': samples, 'labels': list(labels), 'bin_samples': binsamp,
+                                    'half': half, 'sym': sym, 'rate': rate},
+                                expected=describe(exp), observed=describe(got)), order * 1000 + n)
+                            return
+
+
 def explore(ctx):
     self_test()
     thorough = ctx.thorough
@@ -240,11 +287,16 @@ def explore(ctx):
                           'tier': ctx.tier})
     ctx.run_cases(run_case, cases, chunk=2, sweep='more-clusters')
     ctx.run_cases(run_case, long_cases(ctx), chunk=8, sweep='long-periodic')
+    ctx.run_cases(run_late, [{'late': True, 'kind': k, 'max_len': 4 if thorough else 3, 'grid': 5 if thorough else 4}
+                             for k in ('float32', 'float64')], chunk=1, sweep='late-in-recording')
 
 
 def replay(record):
     imports()
     acc = core.Acc()
+    if (record.get('case') or {}).get('late'):
+        run_late(record['case'], acc, 0)
+        return [dict(v['record'], signature=s) for s, v in acc.violations.items()]
     run_case(record['case'], acc, record.get('order', 0))
     # the rate / dtype rotation depends on the order: try all offsets so the recorded op is hit
     if not acc.violations:
